@@ -6,7 +6,7 @@ import re
 import sys
 import tempfile
 
-sys.path.insert(0, '/verif/native')
+sys.path.insert(0, os.path.dirname(os.path.abspath(__file__)))
 import mkmodel  # noqa: E402
 
 mkmodel.assert_tree()
